@@ -679,7 +679,8 @@ deriving DecidableEq, Repr
 
 inductive ListOp
   | append (x : Member)
-  | extendList (xs : List Member)      -- a list / tuple argument
+  | extendList (xs : List Member)      -- any iterable (list, tuple, generator, iter, map, array, …):
+                                       -- `regions = list(regions)` first  (F13d fixed in 727d915)
   | extendRegions (xs : List Member)   -- a `Regions` argument
   | extendBad                          -- a non-iterable argument
   | insert (i : Int) (x : Member)
